@@ -1428,8 +1428,9 @@ deep_inventory (object_t * ob, int take_top)
 
 static int alist_cmp (svalue_t * p1, svalue_t * p2) {
 
+  /* the 64-bit difference does not fit an int: 0 and 0x100000000 compared equal */
   if (p1->u.number != p2->u.number)
-    return (int)(p1->u.number - p2->u.number);
+    return p1->u.number < p2->u.number ? -1 : 1;
   if (p1->type != p2->type)
     return (int)(p1->type - p2->type);
   return 0;
